@@ -221,6 +221,17 @@ CLAIMED.update({
     ),
 })
 
+CLAIMED.update({
+    'C22': (
+        'proxy symbolic execution (bvx/z3) of Interpreter.execute over sessions with solver-chosen failing cells, differential against the session without them',
+        'Bounded symbolic model checking over crash points: where the failing cells are inserted, which body they run, after which instruction they fail and whether they fail inside DIP '
+        'are solver variables, all pushed values are symbolic; after every successful cell the stack (incl. big_map ids, entries, removals), the protected-prefix counter, the context '
+        'counters/registries and every COMMIT lazy diff/result must equal those of the session with the failing cells removed.',
+        'Fixed skeleton of 13 cells, 6 failing-cell bodies; the PLY parser is replaced by a table lookup (cells are Micheline).',
+        'DESIGN.md C22',
+    ),
+})
+
 NOT_APPLICABLE = {
     'C18': 'Parser is a PLY regex lexer + LALR tables + json; every input is concrete before the code under test runs, '
            'so a solver has nothing to decide (CrossHair regex model also unsound here). See DESIGN.md section 6.',
